@@ -240,8 +240,8 @@ def select(F):
         cb = F.bodies[c]
         if cb.kind != 'fn' or cb.pub or c in anc or len(cb.blocks) > MAX_BLOCKS or not (1 <= len(ss) <= MAX_SITES):
             continue
-        if any(x in c for x in ('::{', '<impl', ' as ')) or c.startswith('<') or any(seg[:1].isupper() for seg in c.split('::')[:-1]):
-            continue        # trait / inherent methods: part of a type's interface, not an extracted free helper
+        if any(x in c for x in ('::{', '<impl', ' as ')) or c.startswith('<'):
+            continue        # trait methods / generic impl items: part of an interface, not an extracted helper
         if 'generated_contracts' in cb.file or cb.path.split('::')[-1].startswith('test'):
             continue
         if any(F.bodies[p].file != cb.file for p, _ in ss):
